@@ -66,6 +66,8 @@ class C06:
             cfg["app_env"] = rng.choice(["same", "same", "absent", "other", "other"])
             # the platform directory handed over under a name that is not UTF-8 (one case in twelve)
             cfg["odd_platform"] = rng.random() < 0.08
+            # an earlier detect call for ANOTHER buildpack directory in the same process: nothing of it shows later
+            cfg["prime"] = rng.random() < 0.25
             tree = []
             used = set()
             for _ in range(rng.randint(0, 5)):
